@@ -79,6 +79,7 @@ inductive Op where
   | rawrt (v : Nat)
   | rawparts (v : Nat)
   | lazyDc (v i depth ty : Nat)
+  | iterClone (v : Nat) (pre post : List End)
   deriving Repr
 
 /-- per-case configuration: every element type of a case has this layout -/
@@ -677,6 +678,15 @@ def step (cfg : Cfg) (op : Op) : WM Out :=
         hold n
         pure [cfg.tok n]
     else WM.panic "called `Option::unwrap()` on a `None` value"
+
+  | .iterClone v pre post => do
+    -- `let mut it = v.iter(); <pre>; let mut it2 = it.clone(); drop(it); <post on it2>`: a clone of an
+    -- iterator is an iterator over exactly what the original had left
+    let x ← getVec v
+    let c0 : Cursor := { index := 0, end_ := x.len }
+    let o1 ← iterGo cfg v c0 pre [toString x.len]
+    let c1 := pre.foldl (fun c e => (c.step e).2) c0
+    iterGo cfg v c1 post (o1 ++ ["C:" ++ toString c1.len])
 
 /-- one script step: the library call(s), then the caller destroys the raw values the library
 did not take -/
